@@ -65,6 +65,7 @@ ASSUMPTIONS = [
 # producing their triggers; the flags only document the bucket names.
 KNOWN_REVERSE_LOG_CANCELLATION = 'unit/nonfinite/REVERSE_LOG_cancellation'
 KNOWN_OVERFLOW_DROPS_PARAM = 'decode/missing/unscale_overflow'
+KNOWN_NEAREST_ABSORBED = 'decode/nearest_lost_to_absorption'
 
 MDI = (0, 10, 'inf')
 
@@ -467,9 +468,12 @@ def check_roundtrip(case):
     return out
   if not ad.same(snap, ad.snapshot(arg)):
     out.violate('mutation/to_parameters/input', cls)
-  if len(dec) < n:
-    out.violate('roundtrip/count', 'decoded %d of %d' % (len(dec), n))
-    return out
+  want_n = info['padded_shape'][0] if cls == 'padded' else n
+  if len(dec) != want_n:
+    out.violate('roundtrip/count/' + cls,
+                'decoded %d parameter dicts for %d rows' % (len(dec), want_n))
+    if len(dec) < n:
+      return out
   for i, pt in enumerate(points):
     got = {k: _pyval(v.value) for k, v in dec[i].items()}
     if set(got) != set(pt):
@@ -690,7 +694,7 @@ def check_decode(case):
             rec['mode'] = 'in'  # unmap takes points of the embedded space
           v = _cont_value(rec, b0, b1, np.dtype('float32'))
           params[name] = float(v)
-          meta[name].append(('cont', float(v), True))
+          meta[name].append(('cont', float(v), True, 'lo'))
         else:
           fv = list(pc.feasible_values)
           params[name] = fv[r[j]['i'] % len(fv)]
@@ -722,7 +726,7 @@ def check_decode(case):
           inr = b0 <= v <= b1
           offbeat = offbeat or not inr
           col.append(v)
-          meta[name].append(('cont', v, inr))
+          meta[name].append(('cont', v, inr, 'hi' if v > b1 else 'lo'))
         blocks[name] = np.asarray(col, dtype=dtype).reshape(n, 1)
       elif L['type'] == 'INDEX':
         col = []
@@ -752,9 +756,11 @@ def check_decode(case):
     return out
   if not ad.same(snap, ad.snapshot(arg)):
     out.violate('mutation/to_parameters/input', cls)
-  if len(dec) < n:
-    out.violate('decode/count', 'decoded %d of %d rows' % (len(dec), n))
-    return out
+  if len(dec) != n:
+    out.violate('decode/count/' + cls,
+                'decoded %d parameter dicts for %d rows' % (len(dec), n))
+    if len(dec) < n:
+      return out
 
   for i in range(n):
     got = {k: _pyval(v.value) for k, v in dec[i].items()}
@@ -796,11 +802,15 @@ def check_decode(case):
                         name, p['kind'], m, got))
         continue
       y = got[name]
+      if (m[0] == 'cont' and not m[2] and p['kind'] == 'DOUBLE'
+          and not conv['clip']):
+        _judge_unclipped(out, p, m, y, dtype, scaled)
+        continue
       if spaces.value_member(p, y):
+        _judge_nearest(out, p, L, m, y, conv, dtype, scaled,
+                       None if cls == 'scaler' else blocks[name][i])
         continue
       if p['kind'] == 'DOUBLE' and not conv['clip']:
-        if not m[2]:
-          continue
         lo, hi = M.bounds_of(p)
         if (isinstance(y, float) and math.isfinite(y)
             and lo - M.tol_value(p, lo, dtype, scaled) <= y
@@ -817,6 +827,85 @@ def check_decode(case):
   if offbeat:
     out.cls('has_offbeat_entry')
   return out
+
+
+def _judge_nearest(out, p, L, m, y, conv, dtype, scaled, row):
+  """Documented "convert and clip to the nearest feasible value" (secondary)."""
+  import numpy as np
+  from harness import c15_model as M
+  if m[0] == 'hot':
+    valid = np.asarray(row[:L['n']])
+    mx = valid.max()
+    if int((valid == mx).sum()) == 1:
+      want = M.feasible_of(p)[int(np.argmax(valid))]
+      if not y == want:
+        out.violate('decode/onehot_not_argmax',
+                    'param %r block %r -> %r, largest valid entry is %r' % (
+                        p['name'], row.tolist(), y, want))
+    return
+  if m[0] != 'cont' or m[2]:
+    return
+  f, s = m[1], m[3]
+  if not conv['clip']:
+    return
+  if p['kind'] == 'DOUBLE':
+    bound = p[s]
+    if abs(y - bound) > M.tol_value(p, bound, dtype, scaled):
+      out.violate('decode/clip_not_nearest_bound/DOUBLE',
+                  'param %r bounds (%r,%r): feature %r lies %s the range but '
+                  'decodes to %r' % (p['name'], p['lo'], p['hi'], f,
+                                     'above' if s == 'hi' else 'below', y))
+  elif L['continuified']:
+    vals = [float(v) for v in M.feasible_of(p)]
+    want = vals[-1] if s == 'hi' else vals[0]
+    if not y == want:
+      ref = M.ref_value(p, f) if scaled else f
+      gap = min([b - a for a, b in zip(vals, vals[1:])] or [1.0])
+      if (want != vals[0] and math.isfinite(ref)
+          and M.eps_of(dtype) * abs(ref) >= 0.25 * gap):
+        # |feasible - value| is the same float for every candidate
+        out.cls('nearest_absorbed')
+        out.violate(KNOWN_NEAREST_ABSORBED,
+                    'param %r (%s %r..%r, %s): feature %r unscales to about '
+                    '%r; decoded %r, nearest feasible is %r' % (
+                        p['name'], p['kind'], vals[0], vals[-1], dtype, f,
+                        ref, y, want))
+        return
+      out.violate('decode/clip_not_nearest_bound/' + p['kind'],
+                  'param %r: feature %r lies %s the range but decodes to %r, '
+                  'nearest feasible is %r' % (
+                      p['name'], f, 'above' if s == 'hi' else 'below', y,
+                      want))
+
+
+def _judge_unclipped(out, p, m, y, dtype, scaled):
+  """should_clip=False: a feature distinctly outside the range must not be
+  truncated to the bound (documented meaning of the option; secondary)."""
+  from harness import c15_model as M
+  f = m[1]
+  lo, hi = M.bounds_of(p)
+  ref = M.ref_value(p, f) if scaled else f
+  if not (isinstance(y, float) and math.isfinite(y) and math.isfinite(ref)):
+    return
+  if float(np_cast(lo, dtype)) == float(np_cast(hi, dtype)) and scaled:
+    return
+  if ref > hi + 4 * M.tol_value(p, hi, dtype, scaled) + 4 * M.eps_of(
+      dtype) * abs(f) * abs(ref) and not y > hi:
+    out.violate('decode/clip_off_but_truncated',
+                'param %r bounds (%r,%r): feature %r (reference value %r) '
+                'decoded to %r with should_clip=False' % (
+                    p['name'], lo, hi, f, ref, y))
+  elif ref < lo - 4 * M.tol_value(p, lo, dtype, scaled) - 4 * M.eps_of(
+      dtype) * abs(f) * abs(ref) and not y < lo:
+    out.violate('decode/clip_off_but_truncated',
+                'param %r bounds (%r,%r): feature %r (reference value %r) '
+                'decoded to %r with should_clip=False' % (
+                    p['name'], lo, hi, f, ref, y))
+
+
+def np_cast(v, dtype):
+  import numpy as np
+  return np.asarray(v, dtype=dtype)
 
 
 # ---------------------------------------------------------------------------
